@@ -23,6 +23,12 @@ What is ignored, exactly:
     between two runs of the same sequential schedule they are compared byte for byte (two runs of the same
     POOL schedule: rows sorted, a pure row-order difference is reported under its own signature); for a
     subset run every data row must occur verbatim in the full run's summary.
+Run-after stage (wholerun.prev_variant): the same configuration is run in a fresh folder and in a folder that starts
+with the same two seed files and was used before by a configuration differing in ONE defining leaf (site count, per-site
+cost, coverage, repair delay, durations, surveys per year, months, MDL, pre-simulation flag, n_sims, rates: every
+per-program file and the summaries byte for byte; period start/end: the daily seed series is redrawn, so only the
+scenario rows fixed by the emission seeds are compared with the fresh run, and the run is repeated on the folder and
+must be byte-identical).
 History stage: period A is run, then on the SAME generator folder period B (A shifted by one non-leap year: same
 number of days, other dates) is run twice; the two B runs must be byte-identical and the saved daily seed series must
 cover exactly B's dates.
@@ -92,7 +98,7 @@ def c12_config(rng, ndays, n_sites, n_sims, four=True, keep_all=True, start=None
                      "temporal": 0.75, "mdl": 0.015625, "qe": [0.0, 25.0], "qe_type": "default",
                      "sensor_type": rng.choice(["default", "OGI_camera_zim", "OGI_camera_rk"])})
     m["AIR"].update({"t_bw_sites": [5.0, 20.0, 35.0], "months": allm, "surveys_per_year": 12, "spatial": 0.75,
-                     "temporal": 0.75, "mdl": 0.0625, "qe": [QE_FILE, "err"], "qe_type": "sample"})
+                     "temporal": 0.75, "mdl": 0.0625, "qe": [QE_FILE, "err_short"], "qe_type": "sample"})
     m["AIR"]["follow_up"].update({"threshold": 0.0, "proportion": rng.choice([1.0, 0.5]), "instant_threshold": None,
                                   "delay": rng.choice([0, 3])})
     m["OGI_FU"].update({"t_bw_sites": [10.0, 30.0, 50.0], "spatial": 0.75, "temporal": 0.75, "mdl": 0.015625,
@@ -104,7 +110,11 @@ def c12_config(rng, ndays, n_sites, n_sims, four=True, keep_all=True, start=None
     # coverage 0.75, sampled travel times), P_OGI and P_ogiB share the label OGI (spatial 0.5): state keyed by
     # method label that leaks from one program's copy of the infrastructure into another's shows up here
     m["AIR_L"] = json.loads(json.dumps(m["AIR"]))
-    m["AIR_L"].update({"mdl": 0.5, "spatial": 0.5, "surveys_per_year": 6, "t_bw_sites": [10.0, 25.0]})
+    # sample-type quantification from ONE file with columns of different length (the short one padded with empty
+    # cells): AIR reads the short column, AIR_L and OGI_FU2 (other programs) the long one - a cache of the file shared
+    # between predictors, or any state keyed by the file, shows up as a dependence on program order / worker count
+    m["AIR_L"].update({"mdl": 0.5, "spatial": 0.5, "surveys_per_year": 6, "t_bw_sites": [10.0, 25.0],
+                       "qe": [QE_FILE, "err"], "qe_type": "sample"})
     m["AIR_L"]["follow_up"].update({"proportion": 1.0, "delay": rng.choice([0, 5])})
     if four == "three":
         progs = [("P_none", []), ("P_air", ["AIR", "OGI_FU"]), ("P_airL", ["AIR_L", "OGI_FU"])]
@@ -137,7 +147,9 @@ def c12_config(rng, ndays, n_sites, n_sims, four=True, keep_all=True, start=None
         if keep_sims >= 6:
             cfg["n_sims"] = keep_sims   # the batch-boundary configuration keeps its two batches
             cfg["wide_applied"] = [a for a in cfg["wide_applied"] if a["path"][-1] != "n_sims"]
-    cfg["extra_inputs"] = {QE_FILE: "err\n" + "\n".join(str(x) for x in (-50, -25, 0, 25, 50, 100)) + "\n"}
+    long_col, short_col = (-50, -25, 0, 25, 50, 100, 150, -90), (-75, 10, 200)
+    rows = [f"{a},{short_col[i] if i < len(short_col) else ''}" for i, a in enumerate(long_col)]
+    cfg["extra_inputs"] = {QE_FILE: "err,err_short\n" + "\n".join(rows) + "\n"}
     return cfg
 
 
@@ -668,6 +680,122 @@ def history_record(ctx, tables, cfg_a, cfg_b, result):
 
 
 # ------------------------------------------------------------------------------------------------
+# run-after stage: the SAME configuration in a fresh folder vs in a folder used before by a DIFFERENT configuration
+# ------------------------------------------------------------------------------------------------
+PRESEED_FILES = ("emis_preseed.p", "preseed.p")
+SEEDS_REDRAWN = ("period-start", "period-end")   # the earlier run's period differs: the daily seed series is redrawn
+
+
+def run_after_plan(ctx):
+    """(cfg, [(cfg_prev, what_differs)]) - everything random drawn in the main thread"""
+    cfg = c12_config(ctx.rng, ctx.pick(45, 70), 4, 1, four=ctx.rng.choice(["three", False]))
+    out, seen = [], set()
+    for _ in range(60):
+        if len(out) >= ctx.pick(1, 4):
+            break
+        prev, what = W.prev_variant(cfg, ctx.rng)
+        if what in seen or (ctx.quick and what in SEEDS_REDRAWN):
+            continue
+        seen.add(what)
+        out.append((prev, what))
+    return cfg, out
+
+
+def scenario_rows(run, baseline="P_none"):
+    """what the emission seeds alone determine: the generated emissions of every simulation, read from the baseline
+    program's records (id, place, start, true rate, repairable) - independent of the daily seed series"""
+    keep = ("Emissions ID", "Site ID", "Equipment", "Component", "Date Began", '"True" Rate (g/s)', "Repairable")
+    out = {}
+    for rel, b in run.files.items():
+        if rel.startswith(baseline + os.sep) and rel.endswith("_emissions_summary.csv"):
+            out[rel] = sorted(tuple(r.get(k) for k in keep) for r in _csv(b))
+    return out
+
+
+def run_after_run(cfg, variants, repo=None):
+    """reference: cfg in a fresh folder F1.  For every variant: a folder that starts with F1's two seed files only,
+    cfg_prev is run in it, then cfg; the second run is compared with the reference.  Pure (no ctx)."""
+    progs = [p["name"] for p in cfg["programs"]]
+    base = {"order": progs, "debug": True, "processes": 1}
+    root = tempfile.mkdtemp(prefix="ldarverif_c12a_")
+    res = {"ref_rc": None, "items": [], "ref_log": ""}
+    try:
+        for attempt in range(4):
+            f1 = os.path.join(root, f"F1_{attempt}")
+            os.makedirs(f1)
+            ref = run_schedule(cfg, base, f1, repo=repo)
+            if ref.rc == 0:
+                break
+        res["ref_rc"], res["ref_log"] = ref.rc, ref.log[-2000:]
+        if ref.rc != 0:
+            return res
+        ref_scen = scenario_rows(ref)
+
+        def one(k, prev, what):
+            wd = os.path.join(root, f"u{k}")
+            gen = os.path.join(wd, "inputs", "generator")
+            os.makedirs(gen)
+            for f in PRESEED_FILES:
+                shutil.copy(os.path.join(f1, "inputs", "generator", f), os.path.join(gen, f))
+            r0 = run_schedule(prev, base, wd, repo=repo)
+            r = run_schedule(cfg, base, wd, repo=repo)
+            item = {"what": what, "prev_rc": r0.rc, "rc": r.rc, "monitor": r.monitor, "log": r.log[-1500:] if r.rc else "",
+                    "diff": None, "compared": None}
+            if r.rc == 0:
+                if what in SEEDS_REDRAWN:
+                    # the daily seed series was redrawn (twice): only the scenario fixed by the emission seeds must agree,
+                    # and the run must be reproducible on the folder as it now is
+                    item["compared"] = "scenario rows of the baseline program + rerun bytes"
+                    sc = scenario_rows(r)
+                    if sc != ref_scen:
+                        bad = next(k_ for k_ in sorted(set(sc) | set(ref_scen)) if sc.get(k_) != ref_scen.get(k_))
+                        item["diff"] = {"file": bad, "kind": "scenario", "diff": {"rows_fresh": len(ref_scen.get(bad, [])), "rows_after": len(sc.get(bad, []))}}
+                    else:
+                        r2 = run_schedule(cfg, base, wd, repo=repo)
+                        item["diff"] = compare(r, r2, "same") if r2.rc == 0 else {"file": "<run crashed>", "kind": "run-crashed", "diff": {"log_tail": r2.log[-1500:]}}
+                else:
+                    item["compared"] = "every per-program file and the three summaries, byte for byte"
+                    item["diff"] = compare(ref, r, "same")
+            return item
+
+        with ThreadPoolExecutor(max_workers=4) as ex:
+            jobs = [ex.submit(one, k, prev, what) for k, (prev, what) in enumerate(variants)]
+            res["items"] = [j.result() for j in jobs]
+        return res
+    finally:
+        shutil.rmtree(root, ignore_errors=True)
+
+
+def run_after_record(ctx, tables, cfg, variants, res):
+    if res["ref_rc"] != 0:
+        ctx.broke("run-after stage: the reference configuration raised on 4 freshly seeded folders", res["ref_log"])
+        return
+    ctx.traces += 1
+    for (prev, what), it in zip(variants, res["items"]):
+        ctx.traces += 2
+        ctx.evaluations += 1
+        ctx.count(f"history:{what}")
+        ctx.nontrivial.add(f"run-after:{what}")
+        if it["prev_rc"] != 0:
+            ctx.count("history:earlier-run-stopped")   # a first run that stops does not stop the history
+        inp = {"run_after": {"cfg": cfg, "cfg_prev": prev, "what_differs": what}}
+        if it["rc"] != 0:
+            ctx.violate(f"C12:run-after:{what}:run-crashed",
+                        f"the configuration runs through in a fresh folder but raises in a folder used before by a configuration that differs in {what}",
+                        dict(inp, first_difference={"file": "<run crashed>", "kind": "run-crashed", "diff": {"log_tail": it["log"]}}))
+            continue
+        fake = Run({"order": [p["name"] for p in cfg["programs"]], "debug": True, "processes": 1}, 0, "", {}, it["monitor"], 0)
+        check_monitor(ctx, fake, tables, "run-after")
+        if it["diff"] is not None:
+            d = it["diff"]
+            ctx.violate(f"C12:run-after:{what}:{d['kind']}",
+                        f"same configuration, same seed files: outputs in a fresh folder and in a folder used before by a configuration that "
+                        f"differs in {what} are not the same ({it['compared']}); first differing file {d['file']}",
+                        dict(inp, first_difference=d))
+    ctx.sample({"run_after": [[it["what"], it["compared"], None if it["diff"] is None else it["diff"]["file"]] for it in res["items"]]})
+
+
+# ------------------------------------------------------------------------------------------------
 # the Lean model, executed (drv_effects) against an independent Python rendering of the same machine
 # ------------------------------------------------------------------------------------------------
 def _mix(a, x):
@@ -973,6 +1101,7 @@ def run(ctx):
         ctx.disagree("effects-table:sharedMutations", {"direct": "equipment_constant", "container": tgt},
                      "not listed as mutated", f"grew from {len(d['before'])} to {len(d['after'])} entries in three calls")
     hist_cfgs = history_plan(ctx)
+    ra_cfg, ra_variants = run_after_plan(ctx)
     # everything random is drawn here, in the main thread; the runs then go concurrently (own folders, own
     # sub-context each) and are merged in a fixed order
     todo = []
@@ -981,6 +1110,7 @@ def run(ctx):
         todo.append((f"cfg{i}", cfg, make_plan(ctx, cfg), core.Ctx(ctx.prop, ctx.tier, ctx.seed)))
     with ThreadPoolExecutor(max_workers=ctx.pick(4, 3)) as cex, ThreadPoolExecutor(max_workers=1) as hex_:
         hist_jobs = [hex_.submit(history_run, a, b, repo) for a, b in hist_cfgs]
+        ra_job = hex_.submit(run_after_run, ra_cfg, ra_variants, repo)
         jobs = [cex.submit(differential, sub, cfg, tables, repo, lab, planned) for (lab, cfg, planned, sub) in todo]
         errs = []
         for (lab, cfg, planned, sub), j in zip(todo, jobs):
@@ -995,6 +1125,7 @@ def run(ctx):
             ctx.extra.setdefault("stage_seconds", {})[lab] = round(time.time() - t_stage["t0"], 1)
         for (a, b), j in zip(hist_cfgs, hist_jobs):
             history_record(ctx, tables, a, b, j.result())
+        run_after_record(ctx, tables, ra_cfg, ra_variants, ra_job.result())
         lap("whole runs (configurations and history concurrently)")
     ctx.assumptions.append("C12: effect analysis is syntactic (import-closure reachability, aliases through parameters not seen); "
                            "OS scheduling, multiprocessing pickling and float formatting are covered by the differential runs only")
@@ -1038,6 +1169,24 @@ def replay(ctx, data):
         tgt, d = direct_equipment_constant(ctx, repo)
         print("direct equipment constant:", "MUTATED" if tgt else "unchanged", d["outs"][0])
         return 1 if (tgt or ctx.violations) else 0
+    if "run_after" in inp:
+        ra = inp["run_after"]
+        res = run_after_run(ra["cfg"], [(ra["cfg_prev"], ra["what_differs"])], repo)
+        it = res["items"][0] if res["items"] else None
+        print("same configuration in a fresh folder vs in a folder used before by a configuration that differs in", ra["what_differs"])
+        if it is None:
+            print("reference run failed:", res["ref_log"][-800:])
+            return 1
+        if it["rc"] != 0:
+            print("the run in the used folder raised:", it["log"])
+            return 1
+        print("compared:", it["compared"])
+        if it["diff"] is None:
+            print("no difference")
+            return 0
+        print("first differing file:", it["diff"]["file"], "kind:", it["diff"]["kind"])
+        print(json.dumps(it["diff"]["diff"], indent=1))
+        return 1
     if "history" in inp:
         d, sp, _ = history_run(inp["history"]["cfg_a"], inp["history"]["cfg_b"], repo)
         print("period A", inp["period_a"], "then period B", inp["period_b"], "twice on the same generator folder")
